@@ -20,6 +20,21 @@ import vlib
 PROP = "C16"
 SUPPORT = {"math", "typing", "abc", "Optional", "Union", "Tuple", "Callable", "Any", "NewType", "ABC", "abstractmethod", "List", "Set", "Dict"}
 IDENT = re.compile(r"[A-Za-z_][A-Za-z_0-9]*")
+IMPORT = re.compile(r"^(?:from (\S+) )?import (.+)$", re.M)
+
+
+def user_imports(src):
+    """the import bindings of a source text as 'module|name|alias' (top-level statements only)"""
+    out = []
+    for m in IMPORT.finditer(src):
+        mod, rest = m.group(1) or "", m.group(2)
+        names = rest.split(" as ")
+        al = names[1].strip() if len(names) > 1 else ""
+        for n in names[0].split(","):
+            n = n.strip()
+            if n:
+                out.append("%s|%s|%s" % (mod, n, al))
+    return out
 
 
 def replay_imports(chk, vh, tier):
@@ -85,9 +100,25 @@ def run(tier):
             source_free = [] if is_family else sorted(names)
             used = sorted({i_["name"] for i_ in (f["imports"] if f else [])} & SUPPORT)
             referenced = sorted(set(IDENT.findall(run_["out"][0])) & SUPPORT) if run_["ok"] else []
+            # import problems concern the imports the GENERATOR adds (the user's own import statements are reproduced where they stand):
+            # a generated import must come before every other statement and must not bind what another import already binds
+            ui = set(user_imports(c["src"])) if is_family else None
+            problems = []
+            if f:
+                keys = ["%s|%s|%s" % (i_["module"] or "", i_["name"], i_["as"] or "") for i_ in f["imports"]]
+                for i_, key_ in zip(f["imports"], keys):
+                    generated = ui is not None and key_ not in ui
+                    if ui is None:
+                        generated = (i_["module"] in ("typing", "abc") or i_["name"] in ("math",)) and not i_["as"] and i_["index"] == 0
+                    if generated and i_.get("late"):
+                        problems.append("generated import of %s after another statement" % i_["name"])
+                    if keys.count(key_) > 1 and (ui is None or generated or key_ in ui):
+                        problems.append("duplicate import of %s" % key_)
             obs.append({"id": key, "acc": bool(run_["ok"]), "parses": bool(f and f["ok"]), "unbound": f["unbound"] if f else [],
-                        "source_free": source_free, "source_names": sorted(names & SUPPORT), "problems": f["import_problems"] if f else [],
-                        "support_used": [x for x in referenced if x not in ("typing", "abc")], "support_imported": used})
+                        "source_free": source_free, "source_names": sorted(names & SUPPORT), "problems": sorted(set(problems)),
+                        "support_used": [x for x in referenced if x not in ("typing", "abc")], "support_imported": used,
+                        "user_imports": user_imports(c["src"]) if is_family else [],
+                        "imports": ["%s|%s|%s" % (i_["module"] or "", i_["name"], i_["as"] or "") for i_ in (f["imports"] if f else [])]})
     verdicts, states, trans = vlib.judge("ClosedJudge", "ClosedJudge.cfg", obs, chunk=30000)
     chk.states += states
     chk.transitions += trans
@@ -134,6 +165,16 @@ def run(tier):
 
 
 def explain(c, verdict, o, text):
+    if verdict == "violation:support-import-duplicated-or-not-at-the-top" and o["problems"]:
+        ui = set(user_imports(c["src"]))
+        def dup_of_user_from_import(p):
+            if not p.startswith("duplicate import of "):
+                return False
+            key = p[len("duplicate import of "):]
+            mod = key.split("|")[0]
+            return mod in ("typing", "abc") and key in ui and re.search(r"^from %s import \w+, " % mod, text, re.M) is not None
+        if all(dup_of_user_from_import(p) for p in o["problems"]):
+            return "KF-C16-1"
     return None
 
 
